@@ -106,7 +106,10 @@ def census(repo: Repo) -> List[dict]:
     for owner in OWNERS:
         ck = run_check(owner, "quick", repo=repo, write=False, quiet=True, hygiene=False)
         for e in ck.errors:
-            out.append({"rule": f"{owner}.census", "ok": None, "error": e, "funcs": set()})
+            # only a census rule that could not be computed matters here; the owner's other rules are its own business
+            rid = e.split(":", 1)[0].strip()
+            if f"{owner}.{rid}" in CENSUS_RULES or not rid.startswith("R"):
+                out.append({"rule": f"{owner}.census", "ok": None, "error": e, "funcs": set()})
         for o in ck.obligations:
             if o.rule not in CENSUS_RULES:
                 continue
